@@ -11,7 +11,61 @@ type implSet struct {
 	stump u.Stump
 	pol   u.Pollard
 	maps  []*u.MapPollard // full map forests with different TotalRows
+	parts []*partialInst  // partial map forests (deletions are verified with remember first)
 	dead  map[string]bool
+}
+
+// addPartials adds non-full map forests with the given TotalRows settings.
+func (s *implSet) addPartials(rows []uint8) {
+	for i, tr := range rows {
+		m := u.NewMapPollard(false)
+		m.TotalRows = tr
+		s.parts = append(s.parts, &partialInst{m: &m, R: map[u.Hash]bool{}, lazy: i%2 == 0})
+	}
+}
+
+// applyPartials applies a block to the partial forests: verify-with-remember the deletions, then
+// Modify with the given Remember flags; keeps the expected remembered set.
+func (s *implSet) applyPartials(e *emitter, dels, adds []u.Hash, proof u.Proof, remember []bool) {
+	for _, pi := range s.parts {
+		pi := pi
+		name := mapName(pi.m)
+		if s.dead[name] {
+			continue
+		}
+		guarded(e, "Modify."+name, func() {
+			need := !pi.lazy
+			for _, d := range dels {
+				if !pi.R[d] {
+					need = true
+				}
+			}
+			if len(dels) > 0 && need {
+				if err := pi.m.Verify(dels, proof, true); err != nil {
+					e.hfail("VerifyRemember."+name, "honest proof rejected: %v", err)
+					s.dead[name] = true
+					return
+				}
+			}
+			leaves := make([]u.Leaf, len(adds))
+			for i := range adds {
+				leaves[i] = u.Leaf{Hash: adds[i], Remember: remember[i]}
+			}
+			if err := pi.m.Modify(leaves, dels, proof); err != nil {
+				e.hfail("Modify."+name, "honest block rejected: %v", err)
+				s.dead[name] = true
+				return
+			}
+			for _, d := range dels {
+				delete(pi.R, d)
+			}
+			for i := range adds {
+				if remember[i] {
+					pi.R[adds[i]] = true
+				}
+			}
+		})
+	}
 }
 
 func newImplSet(rows []uint8) *implSet {
